@@ -732,6 +732,7 @@ static int walk_loop(cif_loop_tp *loop, cif_handler_tp *handler, void *context) 
         } else {
             cif_packet_tp *packet = NULL;
             int close_result;
+            int stopped = CIF_FALSE;  /* whether a handler's answer, rather than the iterator, ended the iteration */
 
             while ((result = cif_pktitr_next_packet(iterator, &packet)) == CIF_OK) {
                 int packet_result = walk_packet(packet, handler, context);
@@ -748,6 +749,7 @@ static int walk_loop(cif_loop_tp *loop, cif_handler_tp *handler, void *context) 
 
                 /* control reaches this point only on error */
                 result = packet_result;
+                stopped = CIF_TRUE;
                 break;
             }
 
@@ -755,11 +757,12 @@ static int walk_loop(cif_loop_tp *loop, cif_handler_tp *handler, void *context) 
             cif_packet_free(packet);
 
             /* The iterator must be closed or aborted; we choose to close in case the walker modified the CIF */
-            if (((close_result = cif_pktitr_close(iterator)) != CIF_OK) && (result == CIF_FINISHED)) {
+            if (((close_result = cif_pktitr_close(iterator)) != CIF_OK) && !stopped && (result == CIF_FINISHED)) {
                 result = close_result;
             } /* else suppress any second error in favor of a first one */
 
-            if (result != CIF_FINISHED) {
+            /* a handler's own code is returned as is, even if it equals CIF_FINISHED */
+            if (stopped || (result != CIF_FINISHED)) {
                 return result;
             }
 
